@@ -164,7 +164,7 @@ func c12StringBlock(c *fw.Ctx, st c12Stratum, all []string, k int) {
 }
 
 func c12RandName(r *fw.Rand) string {
-	parts := []string{"John", "john", "JOHN", "Jon", "Smith", "Smyth", "O'Neil", "van der Berg", "Müller", "Élise", "名前", "Mary-Ann", "St. John", "(unknown)", "?", "...", "  ", "/", "Jr.", "III", "a", "ab", "abcdefghijklmnopqrstuvwxyz", "Żółć", "x9", "1900"}
+	parts := []string{"John", "john", "JOHN", "Jon", "Smith", "Smyth", "O'Neil", "van der Berg", "Müller", "Élise", "名前", "Mary-Ann", "St. John", "(unknown)", "?", "...", "  ", "/", "Jr.", "III", "a", "ab", "abcdefghijklmnopqrstuvwxyz", "Żółć", "x9", "1900", "Muller", "Elise", "Иван", "Иван Петров", "Ivan Petrov", "Zolc", "名", "Ødegård", "Odegard"}
 	n := r.Intn(4)
 	var ps []string
 	for k := 0; k <= n; k++ {
@@ -256,6 +256,22 @@ func c12Names(c *fw.Ctx) {
 			}
 			if math.Abs(ab-ba) > c12Tol {
 				c.Violation("symmetry:StringSimilarity", fmt.Sprintf("StringSimilarity(%q,%q,%v,%d)=%.12f swapped %.12f", a, b, p.thr, p.pre, ab, ba), pl)
+			}
+			// the same pair handed to JaroWinkler as it is (accents, Cyrillic and
+			// CJK letters, punctuation: nothing is cleaned away on this path)
+			{
+				jab, jba := gedcom.JaroWinkler(a, b, p.thr, p.pre), gedcom.JaroWinkler(b, a, p.thr, p.pre)
+				c.Count("raw-name-pairs", 1)
+				plj := map[string]interface{}{"a": a, "b": b, "boost_threshold": p.thr, "prefix_size": p.pre, "function": "JaroWinkler"}
+				if c12Bad(jab) || c12Bad(jba) {
+					c.Violation("range:JaroWinkler", fmt.Sprintf("JaroWinkler(%q,%q,%v,%d)=%v / swapped %v outside [0,1]", a, b, p.thr, p.pre, jab, jba), plj)
+				}
+				if math.Abs(jab-jba) > c12Tol {
+					c.Violation("symmetry:JaroWinkler", fmt.Sprintf("JaroWinkler(%q,%q,%v,%d)=%.12f but swapped = %.12f", a, b, p.thr, p.pre, jab, jba), plj)
+				}
+				if x == y && a != "" && math.Abs(jab-1) > c12Tol {
+					c.Violation("identity:JaroWinkler", fmt.Sprintf("JaroWinkler(%q, itself)=%v, want 1", a, jab), plj)
+				}
 			}
 			if x == y {
 				// identical names score 1 unless nothing is left after the documented cleaning
@@ -695,6 +711,57 @@ func c12People(c *fw.Ctx) {
 			c.Count("neutral-checks", 1)
 			if v := nilW.Similarity(w, opts); v != 0.5 {
 				c.Violation("neutral:WifeNode.Similarity", fmt.Sprintf("missing wife vs wife = %v", v), pl)
+			}
+		}
+	}
+	// Questions, an edit, questions again. Every score has been asked by now
+	// (whatever is remembered on the individuals is there); then one of the two
+	// gets a name of the other, a birth or a death date through the API, and
+	// the scores are asked again. They must be the scores of the records as
+	// they now read: the ones a fresh decode of the document's text gives.
+	if li := doc.Individuals(); len(li) >= 2 {
+		for k := 0; k < 4; k++ {
+			a, b := li[r.Intn(len(li))], li[r.Intn(len(li))]
+			if a == b {
+				continue
+			}
+			_ = a.Similarity(b, opts)
+			edit := "AddName"
+			switch {
+			case k%3 == 0 && len(b.Names()) > 0:
+				a.AddName(b.Names()[0].Value())
+			case k%3 == 1:
+				edit = "AddBirthDate"
+				a.AddBirthDate(fmt.Sprintf("%d Mar %d", r.Range(1, 28), r.Range(1700, 1990)))
+			default:
+				edit = "AddName(new)"
+				a.AddName("Added /Later/")
+			}
+			c.Count("scores-asked-again-after-an-edit", 1)
+			fresh, err := gedcom.NewDocumentFromString(doc.String())
+			if err != nil {
+				break
+			}
+			fi := fresh.Individuals()
+			var fa, fb *gedcom.IndividualNode
+			for q, x := range li {
+				if x == a {
+					fa = fi[q]
+				}
+				if x == b {
+					fb = fi[q]
+				}
+			}
+			if fa == nil || fb == nil {
+				break
+			}
+			live := []float64{a.Similarity(b, opts), b.Similarity(a, opts), gedcom.IndividualNodes{a}.Similarity(gedcom.IndividualNodes{b}, opts), a.SurroundingSimilarity(b, opts, false).WeightedSimilarity()}
+			want := []float64{fa.Similarity(fb, opts), fb.Similarity(fa, opts), gedcom.IndividualNodes{fa}.Similarity(gedcom.IndividualNodes{fb}, opts), fa.SurroundingSimilarity(fb, opts, false).WeightedSimilarity()}
+			for q, fn := range []string{"IndividualNode.Similarity", "IndividualNode.Similarity(swapped)", "IndividualNodes.Similarity", "SurroundingSimilarity.Weighted"} {
+				if math.Abs(live[q]-want[q]) > c12Tol {
+					c.Violation("stale-after-edit:"+fn, fmt.Sprintf("%s of %s and %s was asked, then %s was called on %s, then it was asked again: %v; a fresh decode of the document as it now reads gives %v (options %s)", fn, a.Pointer(), b.Pointer(), edit, a.Pointer(), live[q], want[q], opts), map[string]interface{}{"gedcom_after_the_edit": doc.String(), "options": opts.String()})
+					break
+				}
 			}
 		}
 	}
